@@ -69,6 +69,7 @@ pub struct Gen {
     /// scripted prelude still to be emitted (directed modes)
     script: std::collections::VecDeque<Op>,
     pending_ask: Option<(AskSpec, String, u128, String)>,
+    pending_goods_nft: Option<(String, String)>,
     /// generator-side fault / schedule events (duplicate delivery, foreign signer, boundary clock …)
     pub counters: std::collections::BTreeMap<&'static str, u64>,
     sloppy_sent: Vec<(String, String, bool, u64)>,
@@ -117,7 +118,9 @@ pub fn world_for(mode: Mode, rng: &mut Prng) -> (WorldCfg, AmtClass) {
     match mode {
         Mode::RoyaltyStack => {
             users = 3;
-            nfts_per_user = rng.range(1, 2) as usize;
+            // sometimes many tokens per user, so that distinct NFTs with confusable identifiers exist
+            // (e.g. contract1 #12 and contract11 #2)
+            nfts_per_user = if rng.chance(1, 3) { 4 } else { rng.range(1, 2) as usize };
             n_cw20 = rng.range(1, 2) as usize;
         }
         Mode::AssetStack => {
@@ -147,10 +150,15 @@ pub fn world_for(mode: Mode, rng: &mut Prng) -> (WorldCfg, AmtClass) {
         }
         _ => {}
     }
+    // total supply of every asset stays below 2^128 so that sums inside one record cannot overflow
+    // legitimately: 3 users x 2^126 in the large class
     let (native_amt, cw20_amt) = match amt {
-        AmtClass::Large => (1u128 << 124, 1u128 << 124),
+        AmtClass::Large => (1u128 << 126, 1u128 << 126),
         _ => (1_000_000_000, 1_000_000_000),
     };
+    if matches!(amt, AmtClass::Large) {
+        users = users.min(3);
+    }
     let start_s = 1_600_000_000 + rng.below(400_000_000);
     let nanos = if rng.chance(1, 4) { 0 } else { rng.below(1_000_000_000) };
     let cfg = WorldCfg {
@@ -188,6 +196,7 @@ impl Gen {
             next_id_hint: 1,
             script: Default::default(),
             pending_ask: None,
+            pending_goods_nft: None,
             counters: Default::default(),
             sloppy_sent: vec![],
         }
@@ -226,7 +235,10 @@ impl Gen {
                     _ => self.rng.range(1, 100_000) as u128,
                 }
             }
-            AmtClass::Large => match self.rng.below(6) {
+            AmtClass::Large => match self.rng.below(9) {
+                6 => u128::MAX / 5 + self.rng.below(3) as u128,
+                7 => (1u128 << 126) - self.rng.below(1000) as u128,
+                8 => (1u128 << 125) + self.rng.below(1000) as u128,
                 0 => (1u128 << 64) - 1 + self.rng.below(3) as u128,
                 1 => 1u128 << 100,
                 2 => (1u128 << 120) + self.rng.below(1000) as u128,
@@ -1144,7 +1156,68 @@ impl Gen {
         }
     }
 
+    /// one trade with registered collections on BOTH sides, the two sets overlapping only partly, and
+    /// fungibles on both sides to pay the royalties from
+    fn script_royalty_overlap(&mut self, o: &Obs, names: &Names) {
+        let m = &names.market;
+        let k = names.colls.len().min(9);
+        if k < 4 {
+            return;
+        }
+        let adm = ADMINS[0];
+        for i in 0..k {
+            if self.rng.chance(4, 5) {
+                let payout = self.rng.pick(&PAYOUTS).to_string();
+                let r = *self.rng.pick(&RATES);
+                self.script.push_back(Op::tx(adm, &names.registry, msgs::reg_register(&names.colls[i], &payout, r), vec![]));
+            }
+        }
+        let mut idx: Vec<usize> = (0..k).collect();
+        self.rng.shuffle(&mut idx);
+        let ns = self.rng.range(1, 3) as usize;
+        let nb = self.rng.range(2, 4) as usize;
+        let shared = self.rng.range(1, ns.min(nb) as u64) as usize;
+        let s_set: Vec<usize> = idx[..ns].to_vec();
+        let mut b_set: Vec<usize> = idx[..shared].to_vec();
+        b_set.extend(idx[ns..(ns + nb - shared).min(k)].iter().cloned());
+        let tok = |who: &str, c: &str| o.nft_owner.iter().find(|(x, ow)| x.0 == c && ow.as_str() == who).map(|(x, _)| x.clone());
+        let a1 = self.amount().max(10_000);
+        let a2 = self.amount().max(10_000);
+        let mut ask = AskSpec { native: vec![("uatom".into(), a2)], ..Default::default() };
+        for c in &b_set {
+            if let Some(x) = tok("user2", &names.colls[*c]) {
+                ask.nfts.push(x);
+            }
+        }
+        self.rng.shuffle(&mut ask.nfts);
+        self.count("royalty_sets_overlap_partly");
+        let lid = 800;
+        let bid = 800;
+        self.script.push_back(Op::tx("user0", m, msgs::create_listing(lid, &ask, None), vec![fund("ujunox", a1)]));
+        let t = names.cw20s[0].clone();
+        let a3 = self.amount().max(5000).min(o.bal("user0", &Fung::Cw20(t.clone())));
+        self.script.push_back(Op::tx("user0", &t, msgs::cw20_send(m, a3, &msgs::inner_add_to_listing_cw20(lid)), vec![]));
+        for c in &s_set {
+            if let Some(x) = tok("user0", &names.colls[*c]) {
+                self.script.push_back(Op::tx("user0", &x.0, msgs::cw721_send(m, &x.1, &msgs::inner_add_to_listing_cw721(lid)), vec![]));
+            }
+        }
+        self.script.push_back(Op::tx("user0", m, msgs::finalize(lid, 7200), vec![]));
+        self.script.push_back(Op::tx("user2", m, msgs::create_bucket(bid), vec![fund("uatom", a2)]));
+        let mut order = ask.nfts.clone();
+        self.rng.shuffle(&mut order);
+        for x in &order {
+            self.script.push_back(Op::tx("user2", &x.0, msgs::cw721_send(m, &x.1, &msgs::inner_add_to_bucket_cw721(bid)), vec![]));
+        }
+        self.script.push_back(Op::tx("user2", m, msgs::buy(lid, bid), vec![]));
+    }
+
     fn script_royalty_stack(&mut self, _o: &Obs, names: &Names) {
+        if self.rng.chance(1, 4) {
+            self.script_royalty_overlap(_o, names);
+            return;
+        }
+        self.script_confusable(_o, names);
         let targets: [u64; 5] = [4990, 5000, 5010, 7500, 3000];
         let mut s = *self.rng.pick(&targets);
         let max_n = names.colls.len();
@@ -1177,9 +1250,16 @@ impl Gen {
         let dup_coll = self.rng.chance(1, 3);
         let price = self.amount().max(20_000);
         let denom = if self.rng.chance(1, 2) { "ujunox" } else { "uatom" };
+        // sometimes the other side of the trade holds NFTs only (no fungible to pay royalties from)
+        let nft_only = self.rng.chance(1, 4);
+        let last = names.colls[max_n - 1].clone();
+        let buyer_nft = _o.nft_owner.iter().find(|(x, ow)| x.0 == last && ow.as_str() == buyer).map(|(x, _)| x.clone());
         if seller_side || both {
-            // seller sells one NFT of each registered collection, asks for coins
-            let ask = AskSpec { native: vec![(denom.into(), price)], ..Default::default() };
+            // seller sells one NFT of each registered collection, asks for coins (or for one NFT)
+            let ask = match (&buyer_nft, nft_only) {
+                (Some(x), true) => AskSpec { nfts: vec![x.clone()], ..Default::default() },
+                _ => AskSpec { native: vec![(denom.into(), price)], ..Default::default() },
+            };
             let mut colls: Vec<usize> = (0..n).collect();
             if extra_unreg {
                 colls.push(n);
@@ -1201,7 +1281,12 @@ impl Gen {
                 self.script.push_back(Op::tx(seller, &names.colls[*ci], msgs::cw721_send(m, tid, &inner), vec![]));
             }
             self.script.push_back(Op::tx(seller, m, msgs::finalize(1, 3600), vec![]));
-            self.script.push_back(Op::tx(buyer, m, msgs::create_bucket(1), vec![fund(denom, price)]));
+            match (&buyer_nft, nft_only) {
+                (Some(x), true) => {
+                    self.script.push_back(Op::tx(buyer, &x.0, msgs::cw721_send(m, &x.1, &msgs::inner_create_bucket_cw721(1)), vec![]))
+                }
+                _ => self.script.push_back(Op::tx(buyer, m, msgs::create_bucket(1), vec![fund(denom, price)])),
+            }
             self.script.push_back(Op::tx(buyer, m, msgs::buy(1, 1), vec![]));
         }
         if !seller_side || both {
@@ -1219,9 +1304,40 @@ impl Gen {
             }
             self.script.push_back(Op::Probe { kind: "__resolve_user2_tokens".into(), arg: 0 });
             // the placeholder is resolved in `next` (see resolve_placeholders)
+            let goods_nft = if nft_only {
+                _o.nft_owner.iter().find(|(x, ow)| x.0 == last && ow.as_str() == "user0" && x.1 != "1" && x.1 != "2").map(|(x, _)| x.clone())
+            } else {
+                None
+            };
+            self.pending_goods_nft = goods_nft;
             self.pending_ask = Some((ask, denom.to_string(), price, buyer2.to_string()));
         }
         let _ = seller_side;
+    }
+
+    /// two DIFFERENT NFTs whose identifiers read the same when glued together (contract1 #12 and
+    /// contract11 #2): a listing asks for one, somebody offers the other — must be refused
+    fn script_confusable(&mut self, o: &Obs, names: &Names) {
+        let mut by_key: std::collections::BTreeMap<String, Vec<((String, String), String)>> = Default::default();
+        for (n, ow) in &o.nft_owner {
+            if names.users.contains(ow) {
+                by_key.entry(format!("{}{}", n.0, n.1)).or_default().push((n.clone(), ow.clone()));
+            }
+        }
+        let pairs: Vec<&Vec<((String, String), String)>> = by_key.values().filter(|v| v.len() >= 2).collect();
+        let Some(v) = self.rng.pick_opt(&pairs) else { return };
+        let (x, _) = v[0].clone();
+        let (y, y_owner) = v[1].clone();
+        let m = &names.market;
+        let seller = self.other_user(names, &y_owner);
+        let ask = AskSpec { nfts: vec![x], ..Default::default() };
+        self.count("confusable_nft_offered");
+        // ids far away from the ones the other preludes use
+        self.script.push_back(Op::tx(&seller, m, msgs::create_listing(900, &ask, None), vec![fund("uatom", 11)]));
+        self.script.push_back(Op::tx(&seller, m, msgs::finalize(900, 86400), vec![]));
+        self.script.push_back(Op::tx(&y_owner, &y.0, msgs::cw721_send(m, &y.1, &msgs::inner_create_bucket_cw721(900)), vec![]));
+        self.script.push_back(Op::tx(&y_owner, m, msgs::buy(900, 900), vec![]));
+        self.script.push_back(Op::tx(&y_owner, m, msgs::remove_bucket(900), vec![]));
     }
 
     fn script_bulk_owner(&mut self, _o: &Obs, names: &Names) {
@@ -1433,7 +1549,10 @@ impl Gen {
         let lid = 2;
         let bid = 2;
         let mut ops: Vec<Op> = vec![];
-        ops.push(Op::tx("user0", m, msgs::create_listing(lid, &ask, None), vec![fund(&denom, price)]));
+        match self.pending_goods_nft.take() {
+            Some(x) => ops.push(Op::tx("user0", &x.0, msgs::cw721_send(m, &x.1, &msgs::inner_create_listing_cw721(lid, &ask, None)), vec![])),
+            None => ops.push(Op::tx("user0", m, msgs::create_listing(lid, &ask, None), vec![fund(&denom, price)])),
+        }
         ops.push(Op::tx("user0", m, msgs::finalize(lid, 3600), vec![]));
         for (i, n) in ask.nfts.iter().enumerate() {
             let inner = if i == 0 { msgs::inner_create_bucket_cw721(bid) } else { msgs::inner_add_to_bucket_cw721(bid) };
